@@ -275,6 +275,9 @@ def make_strategy_class():
                         res.result = True
                     elif kind == "execute" and transaction is not None:
                         res.result = transaction.execute()
+                    elif kind == "line_result":
+                        market.context["line_range_result"] = op["value"]
+                        res.result = "set"
                     else:
                         order = self._order_ref(op.get("o", 0))
                         res.target = order
@@ -372,6 +375,16 @@ class Lab:
             return _orig(pkg)
 
         self.fw.process_order_package = capture
+
+        # capture logging events synchronously (again only inside the checker process)
+        self.events = []
+        orig_log = self.fw.log_control
+
+        def log_capture(event, _orig=orig_log):
+            self.events.append(event)
+            return _orig(event)
+
+        self.fw.log_control = log_capture
 
         for mw in scenario.get("_middleware", []):
             self.fw.add_market_middleware(mw)
